@@ -40,7 +40,7 @@ class Knobs:
             self.p_big_buf = rng.choice((0.0, 0.01, 0.05))
             self.p_absent = rng.choice((0.0, 0.2, 0.5, 0.9))
             self.p_sessions = rng.choice((0.0, 0.3, 0.6, 1.0))
-            self.max_sessions = rng.choice((1, 2, 3))
+            self.max_sessions = rng.choice((1, 2, 3, 3, 5))       # more than three is outside the spec but decodes (byte-sized area)
             self.p_enc = rng.choice((0.0, 0.3, 0.7, 1.0))
             self.p_fail = rng.choice((0.0, 0.1, 0.3, 0.6))
             self.p_endpoint = rng.choice((0.2, 0.6, 0.9))
